@@ -23,8 +23,9 @@ func vPeerFrames(id int64, withHeaders bool, responses [][]byte, code int32, wit
 			ResponseHeaders: &tunnelpb.Metadata{Md: map[string]*tunnelpb.Metadata_Values{"hk": {Val: []string{"h1", "h2"}}}}}})
 	}
 	for _, r := range responses {
+		w := verifWire(r)
 		out = append(out, &tunnelpb.ServerToClient{StreamId: id, Frame: &tunnelpb.ServerToClient_ResponseMessage{
-			ResponseMessage: &tunnelpb.MessageData{Size: uint32(len(r)), Data: r}}})
+			ResponseMessage: &tunnelpb.MessageData{Size: uint32(len(w)), Data: w}}})
 	}
 	cs := &tunnelpb.CloseStream{Status: &spb.Status{Code: code, Message: "msg"}}
 	if withTrailers {
